@@ -8,43 +8,6 @@ namespace Echse.Lemmas.RrRfc
 open Echse.Rrule Echse.Instant Echse.Spec.RrOk Echse.Spec.Cal Echse.Spec.RuleExt Echse.Spec.Rfc
 open Echse.Lemmas.RrOkBase
 
-/-- the instant of a time of the enumeration on the day `y-m-d` -/
-def mkz (y m d ms : Nat) (t : Tix) : Inst := ⟨y, m, d, t.2.1, t.2.2.1, t.2.2.2, ms⟩
-
-/-- instants of one day and one kind are ordered as their order keys -/
-theorem abs_lt_of_tkey {p a b : Inst} (ha : KindOk p a) (hb : KindOk p b) (hd : dayOf a = dayOf b)
-    (hk : tkey a.H a.M a.S < tkey b.H b.M b.S) : absOf a < absOf b := by
-  unfold absOf secOf
-  rw [hd]
-  unfold KindOk allDay at ha hb
-  unfold tkey at hk
-  unfold allDay
-  rcases ha with ⟨a1, a2, a3, a4⟩ | ⟨a1, a2, a3, a4⟩
-  · rcases hb with ⟨b1, b2, b3, b4⟩ | ⟨b1, b2, b3, b4⟩
-    · rw [a2, b2, a3, b3, a4, b4] at hk; omega
-    · exact absurd a1 b1
-  · rcases hb with ⟨b1, b2, b3, b4⟩ | ⟨b1, b2, b3, b4⟩
-    · exact absurd b1 a1
-    · rw [if_neg (by omega), if_neg (by omega)]; omega
-
-/-- the times of one day, in the enumeration's order, ascend -/
-theorem dayL_sorted (r : Rule) (p : Inst) (hr : WfRule r) (hp : WfInst p) (hs : SeedOk r p) (y m d : Nat) :
-    ((makeEnum p r).timesIx.map (mkz y m d p.ms)).Pairwise (fun a b => absOf a < absOf b) := by
-  rw [List.pairwise_map]
-  have he : EnumOk (makeEnum p r) := makeEnum_ok r p hr hp hs.timeOk
-  refine (timesIx_asc he).imp_of_mem ?_
-  intro a b ha hb hlt
-  obtain ⟨a1, a2, a3⟩ := mem_timesIx ha
-  obtain ⟨b1, b2, b3⟩ := mem_timesIx hb
-  have ka := (exp_of_enum (x := mkz y m d p.ms a) hr hp hs a1 a2 a3).1
-  have kb := (exp_of_enum (x := mkz y m d p.ms b) hr hp hs b1 b2 b3).1
-  exact abs_lt_of_tkey ka kb rfl hlt
-
-/-- the index the day loop computes is the position in the enumeration -/
-theorem dly_idx (e : Enum) (iH iM iS : Nat) :
-    (iH * e.M.length + iM) * e.S.length + iS = iH * (e.M.length * e.S.length) + (iM * e.S.length + iS) := by
-  rw [Nat.add_mul, Nat.mul_assoc, Nat.add_assoc]
-
 /-- the day's instances: exactly the times of the enumeration on that day -/
 theorem dayL_char (r : Rule) (p : Inst) (nti : Nat) (hr : WfRule r) (hp : WfInst p) (hs : SeedOk r p)
     (hy : 1901 ≤ p.y) (hf : r.freq = 4) (j y m d : Nat) (hc : Carry p.y p.m (rnd (dctx r p nti) j) y m d)
